@@ -22,6 +22,7 @@ import (
 	logstore "github.com/echovault/sugardb/internal/aof/log"
 	"github.com/echovault/sugardb/internal/aof/preamble"
 	"github.com/echovault/sugardb/internal/clock"
+	"github.com/echovault/sugardb/internal/verifhook"
 	"log"
 	"sync"
 )
@@ -166,6 +167,7 @@ func (engine *Engine) RewriteLog() error {
 
 	engine.startRewriteFunc()
 	defer engine.finishRewriteFunc()
+	verifhook.Point("aof.rewrite.begin")
 
 	// Create AOF preamble.
 	if err := engine.preambleStore.CreatePreamble(); err != nil {
@@ -176,6 +178,7 @@ func (engine *Engine) RewriteLog() error {
 	if err := engine.appendStore.Truncate(); err != nil {
 		return fmt.Errorf("rewrite log error: create aof error: %+v", err)
 	}
+	verifhook.Point("aof.rewrite.end")
 
 	return nil
 }
